@@ -18,6 +18,23 @@ COMMON_NOTE = (
 
 # property -> (text, technique, note, design_ref)
 CLAIMS = {
+    "C08": (
+        "Lean theorems over ALL callee behaviours (what getattr does for each required name, whether prepare_dump exists / "
+        "returns / raises which class, whether open fails, how many write calls succeed before which exception, any number "
+        "of frames, how the user's iterator ends) and all file systems: dump_one_preflight (PrepareDumpError, file system "
+        "unchanged, no open/write event), dump_one_write (DumpError, file holds exactly the completed writes, closed), "
+        "select failure before anything is touched, dump_many_empty / _first / _later (by induction over the frame list), "
+        "write_input_funnel, only_these_escape for the three entry points. The theorems are about reference IR terms; the "
+        "terms extracted from api.py by ast on every run are tied to them by decide (flow_matches_*), the per-format "
+        "required lists by decide against the pinned lists. The semantics is tied to the real code by running the real "
+        "dump_one/dump_many/write_input against scripted modules with fault injection at every write, and on the cross "
+        "product of the 13+4 real dump functions x None-subsets x rejection reasons x allow_changes x target state.",
+        "Lean 4 proof (case analysis + induction over frames) over a control-flow IR extracted from api.py + "
+        "model-vs-code correspondence with fault injection + direct search",
+        "Modelled: Python try/except class matching, with-statement, for-loops over iterators, generators/PEP 479; closing "
+        "the file does not fail; format writers consume the frame iterator with a plain loop.",
+        "DESIGN.md §5 C08",
+    ),
     "C10": (
         "Lean theorems over ALL label lists (any element type with decidable equality): success iff the conventions name "
         "the same functions once each; pointwise spec (position + sign product); permutation; reverse = opposite "
